@@ -1018,6 +1018,20 @@ func (w *World) isErrorReturn(r *ssa.Return) bool {
 			}
 		}
 	}
+	// return c.goError(<literal with a System* flag>): always an error (C03.R1)
+	for _, v := range r.Results {
+		if ex, ok := v.(*ssa.Extract); ok {
+			if gc, isC := ex.Tuple.(*ssa.Call); isC && w.isGoErrorCall(gc) {
+				for _, a := range gc.Common().Args {
+					if k, isK := a.(*ssa.Const); isK && k.Value != nil && typeIs(a.Type(), apdPath, "Condition") {
+						if n, okN := constant.Uint64Val(k.Value); okN && n&3 != 0 {
+							return true
+						}
+					}
+				}
+			}
+		}
+	}
 	for _, v := range r.Results {
 		if typeIs(v.Type(), apdPath, "Condition") {
 			if k, ok := v.(*ssa.Const); ok && k.Value != nil {
